@@ -53,6 +53,8 @@ THEOREMS = ["nnid_range", "fill_wellformed", "fill_loads_exactly", "attempts_bou
             # region-compression contract discharged by C12 (no CompressOK hypothesis)
             "compress_contract_discharged", "compressC12_eq", "fill_wellformed_c12", "load_sound_c12",
             "load_error_exact_c12", "attempts_bounded_c12", "resend_exact_c12",
+            # the start signal
+            "start_signal_once", "start_signal_count", "start_once_oracle_holds",
             # send_signal / count_cores_in_state / wait_for_cores_to_reach_state (Props/C09Sig.lean)
             "signal_types_total", "signal_packing_exact", "start_signal_is_send_signal", "count_packing_exact",
             "count_cores_sum", "count_cores_invalid", "wait_returns_count", "wait_terminates_under_clock_progress"]
@@ -571,6 +573,10 @@ def eval_cases(ctx, cases):
             if res["outcome"] != "ok":
                 post["unloaded"] = [dict(a, image=[]) for a in res["outcome"]["loading_error"]]
             batch.append(("post", post))
+        if isinstance(res["outcome"], str) or "loading_error" in res["outcome"]:
+            batch.append(("start_once", dict(suite="c09", op="start_once", app_id=case["app_id"],
+                                             started=(res["outcome"] == "ok" and not case["wait"]),
+                                             reqs=[r for r, _ in res["trace"]])))
         metas.append((case, res, [b[0] for b in batch], len(fills)))
         reqs += [b[1] for b in batch]
     replies = ctx.lean(reqs)
@@ -659,6 +665,11 @@ def judge(ctx, case, res, kinds, rs, n_fills, k):
                               "other cores untouched)" % (
                                   "load_application returned normally" if outcome == "ok" else "SpiNNakerLoadingError raised",
                                   r["bad"][:6]), case)
+    # the start signal: exactly one, the last request, only on a normal return with wait=False
+    # (theorem start_signal_once; anything it changes on the cores is a violation of `post` above)
+    if "start_once" in by and not by["start_once"][0]["ok"]:
+        ctx.mismatch("c09.start_once", "the requests of the call do not contain exactly one start signal as the last "
+                     "request (normal return, wait=False) / contain a signal packet (wait=True or error)", case)
     # ---- (a) model correspondence ------------------------------------------------------
     it = [norm_entry(e) for e in canon_trace(res["trace"], k)]
     for kind, suite in (("model", "c09"), ("model_c12", "c09.c12")):
